@@ -371,5 +371,44 @@ def r15_7(ctx):
         raise AnalysisError("no `.nodes[0]` site on request-named symbols found in kconfserver")
 
 
+def r15_8(ctx):
+    """R15.8 the reply writer cannot fail on the data it carries: (a) json.dump to stdout keeps ensure_ascii (a lone
+    surrogate taken from a request would raise UnicodeEncodeError half way through the line); (b) the snapshot getters that
+    run outside any handler convert values in the base they were validated in (int -> 10, hex -> 16: `int(v, 0)` rejects
+    the leading zeros set_value accepts); (c) in handle_reset the type check precedes every use of the request value."""
+    repo = ctx.repo
+    f = repo.func(f"{KS}:run_server")
+    ctx.analysed(f.qual)
+    dumps = [n for n in ast.walk(f.node) if isinstance(n, ast.Call) and ast.unparse(n.func) == "json.dump" and len(n.args) > 1 and ast.unparse(n.args[1]) == "sys.stdout"]
+    for i, d in enumerate(dumps):
+        kw = {k.arg: ast.unparse(k.value) for k in d.keywords if k.arg}
+        construct = f"run_server/reply writer #{i + 1} is ASCII-safe"
+        bad = kw.get("ensure_ascii") == "False" or "default" in kw or "cls" in kw
+        (ctx.bad(construct, f"json.dump(..., {kw}): strings from the request (names, values with lone surrogates) are written raw and stdout's encoder raises mid-line",
+                 f.loc(d)) if bad else ctx.ok(construct, f.loc(d)))
+    if len(dumps) < 3:
+        raise AnalysisError(f"only {len(dumps)} reply writers found")
+    from . import c06
+    before = len(ctx.instances)
+    c06.r06_8(ctx)
+    keep = [i for i in ctx.instances[before:] if i.construct.startswith("get_json_values") or i.construct.startswith("get_ranges")]
+    dropped = {i.construct for i in ctx.instances[before:]} - {i.construct for i in keep}
+    ctx.instances[before:] = keep
+    ctx.findings[:] = [x for x in ctx.findings if not (x.rule == ctx._rule and x.construct in dropped)]
+    h = repo.func(f"{KS}:handle_reset")
+    ctx.analysed(h.qual)
+    param = h.node.args.args[2].arg
+    tests = [n for n in ast.walk(h.node) if isinstance(n, ast.Call) and ast.unparse(n) == f"isinstance({param}, list)"]
+    uses = [n for n in ast.walk(h.node) if isinstance(n, ast.Name) and n.id == param and isinstance(n.ctx, ast.Load)]
+    construct = "handle_reset/type check precedes every use of the request value"
+    if not tests:
+        ctx.ok(construct + " (no explicit check; covered by the sink analysis R15.1)", h.loc(), nontrivial=False)
+    else:
+        tl = repo.enclosing_stmt(tests[0]).lineno
+        early = [u for u in uses if u.lineno < tl]
+        (ctx.bad(construct, f"`{param}` is used at line {early[0].lineno} before it is checked to be a list of strings: a string that merely contains \"all\" "
+                 "resets the whole configuration, a number raises TypeError", h.loc(early[0])) if early else ctx.ok(construct, h.loc(tests[0])))
+
+
 def rules():
-    return [("R15.7", r15_7, 1), ("R15.1", r15_1, 4), ("R15.2", r15_2, 2), ("R15.3", r15_3, 3), ("R15.4", r15_4, 2), ("R15.5", r15_5, 3), ("R15.6", r15_6, 2)]
+    return [("R15.7", r15_7, 1), ("R15.1", r15_1, 4), ("R15.2", r15_2, 2), ("R15.3", r15_3, 3), ("R15.4", r15_4, 2), ("R15.5", r15_5, 3), ("R15.6", r15_6, 2), ("R15.8", r15_8, 6)]
